@@ -128,7 +128,7 @@ type g03Opt struct {
 
 var g03NoOpt = g03Opt{value: -1, stretchAt: -1}
 
-var g03StretchLens = []int{63, 64, 65, 255, 256, 257, 1023, 1024, 1025, 2047, 2048, 2049, 4095, 4096, 4097, 8193, 16385, 65536, 65537}
+var g03StretchLens = []int{29, 31, 32, 33, 34, 35, 37, 63, 64, 65, 255, 256, 257, 1023, 1024, 1025, 2047, 2048, 2049, 4095, 4096, 4097, 8193, 16385, 65536, 65537}
 
 func g03ValueApplies(pre g03Prefix) bool {
 	return pre.quote != 0 && (strings.HasPrefix(pre.text, "x") || strings.HasPrefix(pre.text, "admin"))
@@ -183,6 +183,10 @@ func g03BuildOpt(m g03Member, sepAt0 func(i int) string, mask uint64, o g03Opt) 
 		sepAt = func(i int) string {
 			sp := sepAt0(i)
 			if i == o.stretchAt && len(sp) > 0 && o.stretchLen > len(sp) {
+				if strings.HasPrefix(sp, "/*") && o.stretchLen%2 == 1 {
+					// one long inline comment instead of many short ones
+					return "/*" + strings.Repeat("a", o.stretchLen-4) + "*/"
+				}
 				return strings.Repeat(sp, o.stretchLen/len(sp))
 			}
 			return sp
@@ -340,7 +344,7 @@ func genC03(w *core.Worker, u core.Unit, emit func(s string, meta string)) {
 			if g03Closers[m.closer] == "))" && r.Intn(4) == 0 {
 				o.closers = []int{3, 4, 5, 8, 31, 64, 255, 1000, 2047, 2048, 2049, 4097, 16385, 65537}[r.Intn(14)]
 			}
-			if r.Intn(16) == 0 {
+			if r.Intn(8) == 0 {
 				o.stretchAt = r.Intn(4)
 				o.stretchLen = g03StretchLens[r.Intn(len(g03StretchLens))]
 			}
@@ -410,7 +414,7 @@ func g03ExhaustiveCount() uint64 {
 func c03() *core.Check {
 	return &core.Check{
 		ID: "C03",
-		Rule: "members of the fixed attack grammar G_sqli (prefix x closers x separator x payload family x case mask x tail; productions dropped by the one-time calibration are listed in grammar/g03_dropped.txt): exhaustively with one separator per string and four fixed case masks, then every word of the payload re-cased on its own (all 2^k assignments for words up to 4 letters), then every quoted \"x\"/\"admin\" member with each of 24 realistic value texts before the quote (dates, names with blanks, values containing # -- /* or the other quote kind) and the blank of the trailing comment replaced by every other white-space byte, then sampled with an independent separator per gap, random masks, random value text, 3-65537 closing parentheses on a quarter of the \"))\" members, and one separator in sixteen repeated up to a threshold length (63-65537 bytes). Oracle: IsSQLi = true. " +
+		Rule: "members of the fixed attack grammar G_sqli (prefix x closers x separator x payload family x case mask x tail; productions dropped by the one-time calibration are listed in grammar/g03_dropped.txt): exhaustively with one separator per string and four fixed case masks, then every word of the payload re-cased on its own (all 2^k assignments for words up to 4 letters), then every quoted \"x\"/\"admin\" member with each of 24 realistic value texts before the quote (dates, names with blanks, values containing # -- /* or the other quote kind) and the blank of the trailing comment replaced by every other white-space byte, then sampled with an independent separator per gap, random masks, random value text, 3-65537 closing parentheses on a quarter of the \"))\" members, and one separator in eight repeated - or, for comment separators, one single long comment - up to a threshold length (29-65537 bytes). Oracle: IsSQLi = true. " +
 			"Non-trivial = every member; distinct by string.",
 		Plan: func(tier string, seed uint64) []core.Unit {
 			total := g03ExhaustiveCount()
